@@ -485,7 +485,15 @@ Plan gen_c12(uint64_t seed, uint64_t run, const std::string& cfg) {
   int64_t mag = (int64_t)1 << shs[g.below(7)];
   Frame f = make_frame(g, mag);
   int maxpaths = 3, maxpts = g.chance(0.8) ? 8 : 16;
-  auto P = [&]() { return gen_paths(g, mag, maxpaths, maxpts, z, g.chance(0.85) ? &f : nullptr); };
+  // now and then a larger rectilinear input (many horizontal edges starting at the same x, many coincident edges):
+  // scratch containers kept by an object grow past their small-size regimes
+  auto grid = [&]() {
+    PPaths pp; int cols = (int)g.range(2, g.chance(0.3) ? 14 : 5), rows = (int)g.range(3, 9); int64_t w = g.range(2, 9), h = g.range(1, 5), gx = g.chance(0.5) ? 0 : g.range(0, 3);
+    for (int rr = 0; rr < rows; ++rr) for (int cc = 0; cc < cols; ++cc) { if (g.chance(0.15)) continue; int64_t x = cc * (w + gx), y = rr * h * (g.chance(0.8) ? 1 : 2);
+      PPath p = {{x, y, 0}, {x + w, y, 0}, {x + w, y + h, 0}, {x, y + h, 0}}; if (g.chance(0.3)) std::reverse(p.begin(), p.end()); add_z(g, p, z); pp.push_back(p); }
+    return pp;
+  };
+  auto P = [&]() { if (g.chance(0.07)) return grid(); return gen_paths(g, mag, maxpaths, maxpts, z, g.chance(0.85) ? &f : nullptr); };
   if (mode == 2 || mode == 3 || mode == 4) {
     // clipper histories: one or two Clipper64 (or a ClipperD), up to two containers
     bool useD = mode == 4 && g.chance(0.6);
